@@ -870,7 +870,12 @@ pub fn run(ctx: &mut Ctx, which: Which) {
             let data = if entry == Entry::CommunicateStr { String::from_utf8_lossy(&data).into_owned().into_bytes() } else { data };
             // the child copies stdin to stdout verbatim: use the stage mode with the identity map (a=1,b=0) and no trailer... the io script cannot echo raw input,
             // so the oracle here is: stdout pattern bytes contain NUL/invalid sequences by construction, and the input hash is checked child-side.
-            let seed = rng.next() >> 1;
+            let mut seed = rng.next() >> 1;
+            if rng.chance(400) {
+                // the child's output is valid text that stops at an arbitrary byte: the only decoding error is a sequence cut short at the very end
+                seed = (seed & !0xFFFF) | crate::common::TEXT_SEED_MARK;
+                ctx.count("outputs_that_are_text_cut_at_an_arbitrary_byte", 1);
+            }
             let n1 = rng.range(1, 20000);
             let cfg = Xcfg {
                 seed,
